@@ -94,9 +94,14 @@ class Check:
 
     def build_lean(self):
         targets = [self.cfg["module"]] + self.cfg.get("extra_targets", [])
-        if self.tier == "thorough" and self.cfg.get("clean_on_thorough", True):
-            # re-check from scratch everything this property's module depends on (own library only)
-            shutil.rmtree(os.path.join(LEAN, ".lake", "build", "lib", "lean", "PMH"), ignore_errors=True)
+        if self.tier == "thorough":
+            # re-elaborate this property's own theorem module and its audit from scratch (the library underneath is
+            # tracked by lake's content hashes and re-checked by leanchecker below); wiping the whole library would
+            # only make the next check of another property slow
+            mod_rel = self.cfg["module"].replace(".", os.sep)
+            for ext in (".olean", ".ilean", ".trace", ".olean.hash", ".ilean.hash"):
+                try: os.remove(os.path.join(LEAN, ".lake", "build", "lib", "lean", mod_rel + ext))
+                except OSError: pass
         rc, out, dt = lake(["build", "pmhdriver"])
         self.driver_ok = rc == 0
         if rc != 0:
